@@ -131,6 +131,11 @@ type kase struct {
 	fronts  []string // large programs: oracles that put this key first ("" = top level)
 	parses  []parse
 	itemOf  func(line int) string // which top-level item a source line belongs to
+	// parser-stage sources (no resolver model): several candidates for one error that the
+	// parser collects in a map; the error must be reported at the first of them
+	parserStage bool
+	expectRaw   string
+	nparses     int
 }
 
 func (k *kase) run(n int) {
@@ -197,6 +202,24 @@ func (k *kase) searchOracle(rep *hx.Report) {
 		}
 		rep.Fail(hx.Failure{Class: class, Oracle: "verdict-equal-across-parses",
 			Detail: k.detail(map[string]any{"expected": "one verdict", "got": counts})})
+		return
+	}
+	if k.parserStage {
+		for _, p := range k.parses {
+			if p.Verdict != "err" || p.Raw != k.expectRaw {
+				got := p.Raw
+				if p.Verdict == "ok" {
+					got = "accepted"
+				}
+				class := "parser-stage:unused-comma-list-error-not-at-the-first-candidate"
+				if len(dr) > 1 {
+					class = "parser-stage:unused-comma-list-error-position-differs-across-parses"
+				}
+				rep.Fail(hx.Failure{Class: class, Oracle: "error-is-at-the-first-candidate-in-every-parse",
+					Detail: k.detail(map[string]any{"expected": k.expectRaw, "got": got, "all": counts})})
+				return
+			}
+		}
 		return
 	}
 	if len(dr) > 1 {
@@ -409,6 +432,65 @@ func ringCase(n, h int) *kase {
 		fronts: []string{"", nm(n * 3 / 4), nm(n / 4)}}
 }
 
+// multiExprCases: sources with SEVERAL unused parenthesised comma lists - the one error
+// candidate set the parser keeps in a map (parser.multiExprs, scanned by checkMultiExprs
+// for the first position).  Candidates on different lines with the columns in both
+// orders, on one line, inside functions / BEGIN / patterns / END, 2 to 5 of them, with
+// used lists (print (a, b), (i, j) in arr) in between.  The expected position is computed
+// here from the text: the first candidate in (line, column) order.
+func multiExprCases(r *hx.Rand, nRandom int) []*kase {
+	mk := func(name string, lines []string) *kase {
+		src := strings.Join(lines, "\n") + "\n"
+		// candidates: every "(" that opens a comma list not preceded by print/printf and not followed by " in "
+		bestL, bestC := 0, 0
+		for li, l := range lines {
+			for ci := 0; ci < len(l); ci++ {
+				if l[ci] != '(' || !strings.HasPrefix(l[ci:], "(1, 2)") {
+					continue
+				}
+				if bestL == 0 {
+					bestL, bestC = li+1, ci+1
+				}
+			}
+		}
+		return &kase{family: "parser-multiexpr-" + name, src: src, parserStage: true, nparses: 80,
+			expectRaw: fmt.Sprintf("parse error at %d:%d: unexpected comma-separated expression", bestL, bestC)}
+	}
+	pad := func(n int) string { return strings.Repeat(" ", n) }
+	var ks []*kase
+	// two candidates, every relation of the columns, on different lines
+	for _, cols := range [][2]int{{12, 2}, {2, 12}, {6, 6}, {7, 6}, {6, 7}} {
+		ks = append(ks, mk(fmt.Sprintf("2-lines-cols-%d-%d", cols[0], cols[1]), []string{
+			"BEGIN {", pad(cols[0]) + "a = (1, 2)", pad(cols[1]) + "b = (1, 2)", "}"}))
+	}
+	// on one line
+	ks = append(ks, mk("1-line", []string{"BEGIN { a = (1, 2); b = (1, 2); c = (1, 2) }"}))
+	// in different items, with used lists in between
+	ks = append(ks, mk("items", []string{
+		"function f(x) {", pad(20) + "return (1, 2)", "}",
+		"$1 { print (3, 4); if ((5, 6) in arr) y = 1 }",
+		"END {", pad(3) + "z = (1, 2)", pad(1) + "w = (1, 2) }"}))
+	ks = append(ks, mk("desc-columns", []string{
+		"BEGIN {", pad(30) + "a = (1, 2)", pad(20) + "b = (1, 2)", pad(10) + "c = (1, 2)", "d = (1, 2)", "}"}))
+	for i := 0; i < nRandom; i++ {
+		n := 2 + r.Intn(4)
+		lines := []string{"BEGIN {"}
+		for j := 0; j < n; j++ {
+			l := pad(r.Intn(25)) + fmt.Sprintf("v%d = (1, 2)", j)
+			if r.Intn(3) == 0 {
+				l += fmt.Sprintf("; u%d = (1, 2)", j)
+			}
+			lines = append(lines, l)
+			if r.Intn(3) == 0 {
+				lines = append(lines, pad(r.Intn(10))+"print (7, 8)")
+			}
+		}
+		lines = append(lines, "}")
+		ks = append(ks, mk(fmt.Sprintf("random-%d", i), lines))
+	}
+	return ks
+}
+
 func progCase(p *Prog) *kase {
 	k := &kase{family: p.Family, src: p.Source(), wire: p.Wire(), natives: p.Natives, nfuncs: len(p.funcs()), itemOf: itemOfProg(p)}
 	k.small = k.nfuncs <= 4
@@ -574,6 +656,29 @@ func (k *kase) correspond(rep *hx.Report, m modelAns) {
 		}
 	}
 	rep.Count(fmt.Sprintf("outcomes:impl=%d,model=%d", len(impl), len(m.reach)))
+}
+
+// since the repair of F-C19-1/2 the model of the implementation is a function (resolve
+// sort_oracle): every parse must give exactly its outcome - verdict, error, all tables
+func (k *kase) correspondDet(rep *hx.Report, ans string) {
+	rep.CorrEvals++
+	ans = strings.TrimSpace(ans)
+	if strings.HasPrefix(ans, "driver-error") {
+		rep.HarnessError("det: %s (family %s)", ans, k.family)
+		return
+	}
+	for _, p := range k.parses {
+		if strings.HasPrefix(p.Canon, "err other ") {
+			rep.Unmodelled++
+			return
+		}
+		if p.Canon != ans {
+			rep.Mismatch(hx.Mismatch{Class: "impl-outcome-differs-from-model(sorted walk order)", Input: short(k.family + "\n" + k.src),
+				Impl: short(p.Canon), Model: short(ans)})
+			return
+		}
+	}
+	rep.Count("det:equal")
 }
 
 var callNativeRe = regexp.MustCompile(`CallNative (\S+) \d+`)
@@ -772,6 +877,11 @@ func buildCases(o hx.Opts, r *hx.Rand) []*kase {
 	// the cut-off boundary (F-C19-2): accepted or "too many iterations" depending on where topoSort starts
 	ks = append(ks, ringCase(200, 99))
 	ks = append(ks, ringCase(40, 19))
+	nMulti := 4
+	if o.Tier == "thorough" {
+		nMulti = 60
+	}
+	ks = append(ks, multiExprCases(r, nMulti)...)
 	return ks
 }
 
@@ -781,7 +891,7 @@ func main() {
 		os.Exit(replay(o))
 	}
 	rep := hx.NewReport("C19", o.Seed, o.Tier)
-	rep.Rule = "sources: the two witnesses; every subset of 1..4 functions erroneous (4 kinds of error, called from BEGIN or not, with/without native functions); C16's systematic families with <= 4 functions; random programs over small name pools (plain and hostile); large programs (12-40 functions with walk-order dependent creation of globals, 10-35 functions with 1-4 erroneous ones, long chains, the 200-function ring at the pass cut-off); each source parsed 30 times. distinct = distinct AWK source; non-trivial = has a function and a call or parameter list"
+	rep.Rule = "sources: the two witnesses; every subset of 1..4 functions erroneous (4 kinds of error, called from BEGIN or not, with/without native functions); C16's systematic families with <= 4 functions; random programs over small name pools (plain and hostile); large programs (12-40 functions with walk-order dependent creation of globals, 10-35 functions with 1-4 erroneous ones, long chains, the 200-function ring at the pass cut-off); each source parsed 30 times; parser-stage sources with 2-5 unused parenthesised comma lists (the candidate set parser.multiExprs) on different lines with the columns in both orders, on one line, across items, each parsed 80 times. distinct = distinct AWK source; non-trivial = has a function and a call or parameter list"
 	r := hx.NewRand(o.Seed)
 	ks := buildCases(o, r)
 	t0 := time.Now()
@@ -792,7 +902,8 @@ func main() {
 		t0 = time.Now()
 	}
 
-	var reqs []string
+	var reqs, detReqs []string
+	var detCases []*kase
 	capRuns := 3000
 	if o.Tier == "thorough" {
 		capRuns = 40000
@@ -802,9 +913,18 @@ func main() {
 		if strings.HasPrefix(k.family, "ring-200") {
 			n = 40
 		}
+		if k.nparses > 0 {
+			n = k.nparses
+		}
 		k.run(n)
 		k.searchOracle(rep)
 		rep.Count("family:" + strings.SplitN(k.family, "-", 2)[0])
+		if k.parserStage {
+			reqs = append(reqs, "")
+			continue
+		}
+		detReqs = append(detReqs, "det "+k.wire)
+		detCases = append(detCases, k)
 		if k.small {
 			reqs = append(reqs, fmt.Sprintf("outcomes %d %s", capRuns, k.wire))
 		} else {
@@ -840,12 +960,29 @@ func main() {
 	if f := os.Getenv("C19_DUMPREQS"); f != "" {
 		os.WriteFile(f, []byte(strings.Join(reqs, "\n")+"\n"), 0o644)
 	}
-	answers, err := hx.ModelEval(o.ModelRun, reqs)
+	// THE outcome of the implementation: the generic resolver under the sorted order
+	if detAns, err := hx.ModelEval(o.ModelRun, detReqs); err != nil {
+		rep.HarnessError("modelrun det: %v", err)
+	} else {
+		for i, k := range detCases {
+			k.correspondDet(rep, detAns[i])
+		}
+	}
+	lap("model det")
+	var mks []*kase
+	var mreqs []string
+	for i, k := range ks {
+		if reqs[i] != "" {
+			mks = append(mks, k)
+			mreqs = append(mreqs, reqs[i])
+		}
+	}
+	answers, err := hx.ModelEval(o.ModelRun, mreqs)
 	lap("model outcomes")
 	if err != nil {
 		rep.HarnessError("modelrun: %v", err)
 	} else {
-		for i, k := range ks {
+		for i, k := range mks {
 			m, err := parseModel(k, answers[i])
 			if err != nil {
 				rep.HarnessError("%v (family %s)", err, k.family)
@@ -907,6 +1044,9 @@ func replay(o hx.Opts) int {
 	case "parse":
 		k := &kase{family: fmt.Sprint(d["family"]), src: fmt.Sprint(d["source"])}
 		k.itemOf = itemOfSource(k.src)
+		if strings.HasPrefix(k.family, "parser-multiexpr") {
+			k.parserStage, k.expectRaw = true, fmt.Sprint(d["expected"])
+		}
 		if ns, ok := d["natives"].([]any); ok {
 			for _, x := range ns {
 				if m, ok := x.(map[string]any); ok {
